@@ -367,7 +367,8 @@ def check_kani(prop, tier, seed, only=None, jobs=None, extra_results=None):
     """returns (exit_code, summary dict)"""
     t0 = time.time()
     allh = [h for h in discover() if h.prop == prop]
-    hs = [h for h in allh if (h.tier == "quick" or tier == "thorough")]
+    # tier=off: harnesses kept in the source for the record (they did not reach a verdict under any cap tried; DESIGN.md)
+    hs = [h for h in allh if h.tier == "quick" or (tier == "thorough" and h.tier == "thorough")]
     if only:
         hs = [h for h in hs if only in h.name]
     if not hs:
